@@ -119,10 +119,21 @@ def packets(rng, tier, fam, n_random=None):
                 if k == 'publish' and pid_ == 1:
                     p[7] = b'utf8 text'
                 out.append(tuple(p))
+                # the same property alone with its smallest value (empty string / empty binary / 0): present, not absent
+                t_ = pk.PROP_TYPES[pid_]
+                small = b'' if t_ in ('str', 'bin', 'topic') else 0
+                q = list(p)
+                q[idx] = ({pid_: small}, [])
+                if k == 'publish' and pid_ == 1:
+                    q[7] = b'\x80binary'
+                out.append(tuple(q))
         for pid_ in PROPS['will']:
             allp = g.props('will', 'all')
             wp = ({pid_: allp[0][pid_]}, [(b'k', b'v')])
             out.append(('connect', 5, 1, 0, ({}, []), b'', (1, 1, wp, b'w', b'text'), None, None))
+            t_ = pk.PROP_TYPES[pid_]
+            wp0 = ({pid_: (b'' if t_ in ('str', 'bin', 'topic') else 0)}, [])
+            out.append(('connect', 5, 0, 0, ({}, []), b'', (0, 0, wp0, b'w', b'\x80binary'), None, None))
         # value boundaries of the subscription identifier
         for v in (0, 1, 127, 128, 16383, 16384, 2097151, 2097152, 268435455):
             out.append(('subscribe', 1, ({11: v}, []), [(b'a', 0, 0, 0, 0)]))
